@@ -228,6 +228,26 @@ def generate():
     emit("gen_rs_ignore_newline", "bool", lambda: site("eval_sys_read_string")[3], False)
     emit("gen_r_ignore_newline", "bool", lambda: site("eval_sys_read")[3], False)
 
+    def rs_fresh():
+        """eval_sys_read_string keeps nothing between calls: its body is exactly `_, a = kg_read_array(x, 0, ...)` followed by
+        `return <a or _read_data_object(klong, a)>` — no container attribute or module global is read or written"""
+        fn = astlib.find_func(S, "eval_sys_read_string")
+        b = astlib.body_no_doc(fn)
+        if len(b) != 2 or not isinstance(b[0], ast.Assign) or not isinstance(b[1], ast.Return):
+            raise ShapeError("eval_sys_read_string: body is not `_, a = kg_read_array(...)`; `return ...`")
+        if ast.unparse(b[0].targets[0]) != "(_, a)" or not (isinstance(b[0].value, ast.Call) and ast.unparse(b[0].value.func) == "kg_read_array"):
+            raise ShapeError("eval_sys_read_string: first statement is %s" % ast.unparse(b[0])[:60])
+        args = [ast.unparse(x) for x in b[0].value.args]
+        if args[:3] != ["x", "0", "klong._backend"]:
+            raise ShapeError("eval_sys_read_string: parser called on %r" % (args,))
+        if ast.unparse(b[1].value) not in ("a", "_read_data_object(klong, a)"):
+            raise ShapeError("eval_sys_read_string: returns %s" % ast.unparse(b[1].value))
+        for n in ast.walk(fn):
+            if isinstance(n, (ast.Global, ast.Nonlocal)):
+                raise ShapeError("eval_sys_read_string: global/nonlocal statement")
+        return True
+    emit("gen_rs_fresh_parse", "bool", rs_fresh, False)
+
     def r_channel():
         fn = astlib.find_func(S, "eval_sys_read")
         b = astlib.body_no_doc(fn)
@@ -252,8 +272,8 @@ def generate():
         if not (isinstance(call, ast.Call) and ast.unparse(call.func) == "kg_read_array" and len(call.args) >= 2
                 and ast.unparse(call.args[0]) == "r" and ast.unparse(call.args[1]) == "0"):
             raise ShapeError("eval_sys_read: parser is not called on (r, 0)")
-        if not isinstance(els[-1], ast.Return):
-            raise ShapeError("eval_sys_read: return expected")
+        if not isinstance(els[-1], ast.Return) or ast.unparse(els[-1].value) not in ("a", "_read_data_object(klong, a)"):
+            raise ShapeError("eval_sys_read: `return a` / `return _read_data_object(klong, a)` expected")
         mid = [ast.unparse(n) for n in els[1:-1]]
         if mid == ["f.raw.seek(k, 0)", "f.raw.read(i)"]:
             by = False
@@ -267,6 +287,8 @@ def generate():
         return lstrip, by
     emit("gen_r_lstrip", "bool", lambda: r_channel()[0], True)
     emit("gen_r_reposition_bytes", "bool", lambda: r_channel()[1], True)
+    # eval_sys_read keeps nothing between calls: the skeleton pinned by r_channel is tell / read / parse (r, 0) / reposition / return of THAT parse
+    emit("gen_r_fresh_parse", "bool", lambda: r_channel() is not None, False)
 
     emit("gen_sym_prefix", "zs", lambda: _fprefix(astlib.find_func(W, "kg_write_symbol"), "x"), "")
     emit("gen_char_prefix", "zs", lambda: _fprefix(astlib.find_func(W, "kg_write_char"), "c"), "")
@@ -1393,6 +1415,120 @@ def check_channel(chk, impl, rng):
     return bad_prop, bad_corr
 
 
+def _walk_dicts(x, fn):
+    import numpy as np
+    if isinstance(x, dict):
+        for v in list(x.values()):
+            _walk_dicts(v, fn)
+        fn(x)
+    elif isinstance(x, (list, tuple)) or (isinstance(x, np.ndarray) and x.dtype == object and x.ndim > 0):
+        for v in x:
+            _walk_dicts(v, fn)
+
+
+def reread_values(tier, rng):
+    d1 = D((I(1), I(2)))
+    d2 = D((St("a"), L(I(1), R(2.5))), (Sy("s"), St('q"')))
+    base = [L(d1), L(I(7), d1), L(d1, d2), L(L(d1, I(1)), L(I(2), I(3))), L(L(d1), L(d2)), L(D(), D()), L(St("}"), d1, Ch("{")),
+            D((I(1), d1)), D((Sy("k"), D((I(2), D((I(3), L(I(4), D()))))))), D((St("x"), L(I(1), d2, L(d1)))), L(I(1), L(I(2), L(d2))),
+            D((I(1), D())), L(R(2.5), d1, I(3)), L(L(I(1), I(2)), d1), d1, d2, D(), D((I(1), L(D((I(5), I(6))), St("x")))),
+            L(L(D((St("name"), St("")), (St("tags"), L()))), I(7)), L(D((Ch("a"), D((I(1), L(I(2), D((Sy("k"), St("v")))))))), L(D())),
+            L(I(1), I(2), I(3)), L(St("a"), Ch("b"), Sy("c"), R(1.5)), I(5), St("x")]
+    for v in base:
+        yield v
+    keys = [I(1), I(-2), St("a"), Ch("b"), Sy("s"), R(2.5), St("")]
+    leaves = [I(1), R(2.5), St("a"), Ch("["), Sy("q"), L(), L(I(1), I(2))]
+    def rnd(depth):
+        r = rng.random()
+        if depth == 0 or r < 0.25:
+            return rng.choice(leaves)
+        if r < 0.6:
+            return L(*[rnd(depth - 1) for _ in range(rng.randint(0, 3))])
+        return D(*[(k, rnd(depth - 1)) for k in rng.sample(keys, rng.randint(0, 3))])
+    for _ in range(150 if tier == "quick" else 2000):
+        v = rnd(4)
+        yield v if v[0] in ("l", "d") else L(v)
+
+
+def check_reread(chk, impl, rng):
+    """REPEATED-READ shard: the same written text is read twice in one interpreter (.rs of the string; .r of the file from its start),
+    and between the two readings the program uses the first result: it adds an entry to every dictionary inside it (in place).
+    Oracle: the second reading matches the original and writes identically; the two readings share no dictionary object."""
+    work = os.path.join(VERIF, ".work", "C11rr-%d" % os.getpid())
+    os.makedirs(work, exist_ok=True)
+    path = os.path.join(work, "rr.txt")
+    k = impl.k
+    k["path"] = path
+    bad_prop = bad_corr = None
+
+    def fill_in(x):
+        def add(d):
+            k["d"] = d
+            k("d,[:seen 1]")
+        _walk_dicts(x, add)
+
+    def ids(x):
+        out = set()
+        _walk_dicts(x, lambda d: out.add(id(d)))
+        return out
+
+    def file_read():
+        k(".fc(F::.ic(path))")
+        try:
+            return k(".r()")
+        finally:
+            k(".cc(F);.fc(0)")
+
+    rows, reqs = [], []
+    try:
+        for v in reread_values(chk.tier, rng):
+            x = impl_value(v, "array", impl.backend)
+            held = canon(x)
+            text = impl.write(x)
+            k["v"] = x
+            k(".tc(T::.oc(path));.w(v);.cc(T)")
+            for sel, reader in ((0, lambda: impl.rs(text)), (1, file_read)):
+                r = {"err": None}
+                try:
+                    y1 = reader()
+                    keep = ids(y1)
+                    fill_in(y1)
+                    y2 = reader()
+                    r["back"] = canon(y2)
+                    r["text2"] = impl.write(y2)
+                    r["match"] = impl.match(x, y2)
+                    r["shared"] = len(keep & ids(y2))
+                    y3 = reader()                    # and once more, untouched in between
+                    r["third"] = canon(y3)
+                except Exception as e:  # noqa
+                    r["err"] = type(e).__name__ + ": " + str(e)[:80]
+                fmt, roi = env_tables(held, r.get("back") or ("o", 7))
+                reqs.append("(reread %d %s %s)" % (sel, env_sx(fmt, roi), vsx(held)))
+                rows.append((sel, held, text, r))
+        outs = chk.run_model(reqs)
+        for (sel, held, text, r), o in zip(rows, outs):
+            chk.count("evaluations")
+            chk.count("reread_cases")
+            what = {"kind": "second reading of the same text (%s) after the first result was updated in place" % (".rs" if sel == 0 else ".r of the file"),
+                    "value": show(held), "text": text, "second_reading": show(r["back"]) if r.get("back") else None, "second_write": r.get("text2"),
+                    "dictionary_objects_shared_with_first_reading": r.get("shared"), "error": r["err"]}
+            ok = (r["err"] is None and r["match"] is True and amatch(held, r["back"]) and r["text2"] == text and r["shared"] == 0
+                  and r["third"] == r["back"])
+            if not ok:
+                if bad_prop is None:
+                    what["expected"] = "matches the written value, writes %r again, shares no dictionary object with the first reading" % text
+                    bad_prop = what
+                continue
+            m = from_model(o[1]) if o[0] == "ok" else o[0]
+            if m != r["back"] and bad_corr is None:
+                what["kind"] = "reread-correspondence"
+                what["model"] = show(m) if isinstance(m, tuple) else m
+                bad_corr = what
+    finally:
+        shutil.rmtree(work, ignore_errors=True)
+    return bad_prop, bad_corr
+
+
 # ------------------------------------------------------------------ run
 def run(tier, replay=None):
     chk = Check("C11", tier)
@@ -1425,7 +1561,7 @@ def run(tier, replay=None):
     if b:
         bad_corrs.append(b)
     for fn in (lambda: check_roundtrip(chk, impl, rng), lambda: check_files(chk, impl, rng), lambda: check_channel(chk, impl, rng),
-               lambda: check_form(chk, impl), lambda: check_form_matrix(chk, impl)):
+               lambda: check_reread(chk, impl, rng), lambda: check_form(chk, impl), lambda: check_form_matrix(chk, impl)):
         bp, bc = fn()
         if bp:
             bad_props.append(bp)
@@ -1449,7 +1585,7 @@ def run(tier, replay=None):
         rule="closed universe: every atom of the lists INTS/REALS/chars/symbols, every string of length <= 2 (quick) / 3 (thorough) over the alphabet "
              "\" [ ] : ; space newline 0 c a plus special strings; every list of <= 2 of 19 atoms; every atom inside a list and nested twice; every nesting of depth <= 2 "
              "with <= 2 elements, (thorough: all 81k / quick: 6000 sampled) of depth <= 2 with <= 3 elements and (thorough: all 76k / quick: 8000 sampled) of depth 3 with <= 2 elements over {1, 2.5, \"a\"}; seeded random nestings to depth 6; "
-             "object-array held lists; top-level dictionaries; file round trips through .w/.r; files of 1..6 values (every kind, 40-value pool: all singles, all pairs of a core, "
+             "object-array held lists; top-level dictionaries; file round trips through .w/.r; repeated reads (.rs twice, .r of the file twice, the first result updated in place in between) of values holding dictionaries at every depth; files of 1..6 values (every kind, 40-value pool: all singles, all pairs of a core, "
              "all triples of 8 (quick) / 12 (thorough), seeded groups of 3..6 with blank/tab separators and trailing blanks, and newline separators for model comparison) written through .w/.d on an output channel and read with repeated .r; x:$$x on atoms; kg_asarray and reader shards. "
              "distinct_nontrivial = distinct values held by klongpy in the round-trip shard",
         trusted_base=TRUSTED, assumptions=ASSUME)
